@@ -110,6 +110,7 @@ pub fn run_real(c: &EmitCase) -> Result<Emitted, String> {
     let spec = parse_spec(&text, true)?;
     let h = real_extract(&spec)?;
     let d = fresh_dir("emit");
+    let mut by_hand_module: Option<String> = None;
     // a share of the crates is generated into a directory that holds the crate of an earlier revision of the service's
     // document: more operations and models (longer index files), one serde adapter, examples
     if c.features.iter().any(|f| f == "regenerated_over_an_earlier_revision") {
@@ -131,6 +132,15 @@ pub fn run_real(c: &EmitCase) -> Result<Emitted, String> {
             if let Some(f) = reqs.first() {
                 if let Ok(old) = std::fs::read_to_string(f) { let _ = std::fs::write(f, format!("// hand-written notes for this operation\n// libninja: after\n{old}")); }
             }
+            // ... and the request index extended by hand: a helper module whose name extends an operation's module name,
+            // declared above the directive (the helper itself is kept under the static directive)
+            if let Some(op) = h.operations.first() {
+                let m = mir_rust::sanitize_filename(&op.file_name());
+                by_hand_module = Some(format!("{m}_by_hand"));
+                let idx = d.join("src/request/mod.rs");
+                if let Ok(old) = std::fs::read_to_string(&idx) { let _ = std::fs::write(&idx, format!("pub mod {m}_by_hand;\n// libninja: after\n{old}")); }
+                let _ = std::fs::write(d.join(format!("src/request/{m}_by_hand.rs")), "// libninja: static\npub fn helper() {}\n");
+            }
             // ... and the example of the first operation kept by hand (the static directive above its generated text)
             if let Some(op) = h.operations.first() {
                 let f = d.join("examples").join(format!("{}.rs", mir_rust::sanitize_filename(&op.file_name())));
@@ -139,9 +149,22 @@ pub fn run_real(c: &EmitCase) -> Result<Emitted, String> {
             r = generate(&spec, &c.cfg, &d);
         }
     }
-    let tree = read_tree(&d);
+    let mut tree = read_tree(&d);
     let _ = std::fs::remove_dir_all(&d);
     r?;
+    // the hand-written helper and its declaration are the user's: taken out again before the crate is judged
+    if let Some(m) = by_hand_module {
+        let helper = format!("src/request/{m}.rs");
+        match tree.remove(&helper) {
+            Some(b) if b == b"// libninja: static\npub fn helper() {}\n".to_vec() => {}
+            other => return Err(format!("the hand-written static module {helper} did not survive regeneration: {:?}", other.map(|b| String::from_utf8_lossy(&b).to_string()))),
+        }
+        if let Some(b) = tree.get_mut("src/request/mod.rs") {
+            let text = String::from_utf8_lossy(b).to_string();
+            let head = format!("pub mod {m};\n// libninja: after\n");
+            match text.strip_prefix(&head) { Some(rest) => *b = rest.as_bytes().to_vec(), None => return Err(format!("the hand-written head of src/request/mod.rs did not survive regeneration: {:?}", text.chars().take(200).collect::<String>())) }
+        }
+    }
     Ok(Emitted { hir: h, tree })
 }
 
@@ -514,6 +537,17 @@ fn oracle_c02(rep: &mut Report, c: &EmitCase, em: &Emitted) {
         if !p.starts_with("src/") || p == "src/serde.rs" { continue; }
         for cap in re.captures_iter(&String::from_utf8_lossy(b)) {
             if !defined.contains(&cap[1]) { rep.oracle_fail("adapterPathUnresolved", vec![], &case, &format!("{p} names crate::serde::{} but src/serde.rs defines {:?}", &cap[1], defined)); }
+        }
+    }
+    // the helper functions and statics lib.rs calls (`shared_*`, `init_*`, `default_*`) are defined in lib.rs
+    if let Some(b) = em.tree.get("src/lib.rs") {
+        let text = String::from_utf8_lossy(b).to_string();
+        let called = regex::Regex::new(r"(?:^|[^.:\w])((?:shared|init|default)_[a-z0-9_]+)\s*\(").unwrap();
+        for cap in called.captures_iter(&text) {
+            let name = &cap[1];
+            if !regex::Regex::new(&format!(r"fn\s+{}\s*[(<]", regex::escape(name))).unwrap().is_match(&text) {
+                rep.oracle_fail("helperUndefined", vec![], &case, &format!("src/lib.rs calls {name}() but does not define it"));
+            }
         }
     }
     rep.bump("c02_module_trees_checked");
